@@ -54,19 +54,35 @@ def make_db(path, nrows, cols):
     conn.close()
 
 
-def discover(path, rex):
+_DB = {}
+
+
+def connection(path, shared):
+    """shared=True: one connection object per table for discovery, verification and re-verification
+    (history-dependent state such as caches would show); False: a fresh connection per call."""
     from tdda.constraints.db.drivers import database_connection
+    if not shared:
+        return database_connection(dbtype='sqlite', db=path)
+    if path not in _DB:
+        _DB.clear()
+        _DB[path] = database_connection(dbtype='sqlite', db=path)
+    return _DB[path]
+
+
+SHARED = [False]
+
+
+def discover(path, rex):
     from tdda.constraints.db.constraints import discover_db_table
     with contextlib.redirect_stderr(io.StringIO()), contextlib.redirect_stdout(io.StringIO()):
-        db = database_connection(dbtype='sqlite', db=path)
+        db = connection(path, SHARED[0])
         return discover_db_table('sqlite', db, 'tbl', inc_rex=rex)
 
 
 def verify(path, cdict):
-    from tdda.constraints.db.drivers import database_connection
     from tdda.constraints.db.constraints import verify_db_table
     with contextlib.redirect_stderr(io.StringIO()), contextlib.redirect_stdout(io.StringIO()):
-        db = database_connection(dbtype='sqlite', db=path)
+        db = connection(path, SHARED[0])
         v = verify_db_table('sqlite', db, 'tbl', cdict)
     return {nm: {k: (None if fr[k] is None else bool(fr[k])) for k in C.KINDS if k in fr} for nm, fr in v.fields.items()}, \
         int(v.failures)
@@ -109,13 +125,16 @@ def run(ctx):
         for it in range(n):
             nrows, cols = gen_table(rng)
             rex = rng.random() < 0.5
+            SHARED[0] = rng.random() < 0.5
             path = os.path.join(work, 't%d.db' % it)
             make_db(path, nrows, cols)
-            case = {'columns': [(nm, k, [repr(x) for x in cells]) for nm, k, cells in cols], 'rex': rex}
+            case = {'columns': [(nm, k, [repr(x) for x in cells]) for nm, k, cells in cols], 'rex': rex,
+                    'shared_connection': SHARED[0]}
             ctx.count(repr(case), nrows > 0)
             for _, k, _ in cols:
                 ctx.bump('col.' + k)
             ctx.bump('rex.%s' % rex)
+            ctx.bump('shared_connection.%s' % SHARED[0])
             try:
                 cs = discover(path, rex)
             except Exception as e:
@@ -188,8 +207,6 @@ def run(ctx):
 
 def classify(cols, e):
     s = str(e)
-    if isinstance(e, sqlite3.OperationalError) and any(not n.isidentifier() or n == 'order' for n, _, _ in cols):
-        return F_COLNAME
     return None
 
 
